@@ -1,4 +1,5 @@
 import Nstd.Rc.Lemmas
+import Nstd.Rc.Total
 /-
   Property C09: shared payloads are released exactly once, after their last handle.
 
@@ -246,6 +247,31 @@ theorem st_write_sole {n tid : Nat} {ops : List ApiOp} {s s1 s2 : St} {acts : Li
   have r := reach_runT acts (reach_apiRun ops Reach.init h) h1
   obtain ⟨a, b', _⟩ := mt_write_sole r h2 hw
   exact ⟨a, b'⟩
+
+/-! ### well-formed calls are never rejected (so the theorems above are not vacuous for any such history) -/
+
+/-- every history of String / Variant / Xml::Variant calls (and Ptr::swap) on the 16 variables runs to the
+    end: no call is rejected by the model (`flatOp` excludes only the RefCount::Ptr calls that walk through
+    embedded `next` handles; for those see the OPEN note) -/
+theorem apiRun_total_partial {n : Nat} (ops : List ApiOp) (hn : nSlots ≤ n)
+    (hops : ∀ op, op ∈ ops → flatOp op = true ∧ idxOk op) : ∃ s, apiRun (init n) 0 ops = some s := by
+  obtain ⟨s, h, _⟩ := apiRun_total_aux (tid := 0) ops (conc_init n) hn (by decide) hops
+  exact ⟨s, h⟩
+
+/-- one call, any thread: if the thread owns all slots, is idle and its two scratch slots are empty
+    (`Conc s tid (A0 tid)`, which also contains the invariant), the call succeeds and re-establishes this -/
+theorem apiStep_total_partial {s : St} {tid : Nat} {op : ApiOp} (hc : Conc s tid (A0 tid)) (hn : nSlots ≤ s.n)
+    (htid : tid < nThreads) (hf : flatOp op = true) (hi : idxOk op) :
+    ∃ s', apiStep s tid op = some s' ∧ Conc s' tid (A0 tid) :=
+  let ⟨s', h, hc', _⟩ := apiStep_total hc hn htid hf hi
+  ⟨s', h, hc'⟩
+
+/-
+  OPEN: `apiRun_total` for the RefCount::Ptr calls pNew / pCopy / pAssign / pClear / pLink / pNext / pNextOf
+  (their step lists walk through embedded handles and depend on the object graph; they additionally need
+  fewer than `maxBlocks` allocations and non-null `d` for `d->next`).  In the correspondence runs a rejected
+  call would show up as `bad-op` against the implementation's observation; none occurred.
+-/
 
 /-! ### non-vacuity: concrete histories / schedules that exercise sharing, cloning, release -/
 
